@@ -3,5 +3,5 @@ from . import adevr, adevi, c13
 
 EXPLANATION = ("Continuation-protocol agreement over all 9 prim_jvp_estimate implementations, polynomial comparison of the REINFORCE / enumeration / "
                "measure-valued tangent forms, reparameterisation transforms with parameter-independent noise, CPS interpreter roles, custom-JVP bridge.")
-RULES = [adevr.kont_protocol, adevr.reinforce_rule, adevr.flip_enum_rule, adevr.flip_mvd_rule, adevr.lane_rb_rule, adevr.reparam_rule, adevi.interpreter_rule, adevi.dual_helpers_rule, c13.adev_param_agreement]
+RULES = [adevr.kont_protocol, adevr.reinforce_rule, adevr.flip_enum_rule, adevr.flip_mvd_rule, adevr.lane_rb_rule, adevr.reparam_rule, adevi.interpreter_rule, adevi.cond_site_continuation, adevi.dual_helpers_rule, c13.adev_param_agreement]
 FLOOR = 18
